@@ -471,3 +471,58 @@ def c05_6(R):
                         R.ok("cc-event-callers:" + callee.split("::")[-1], fn)
                     else:
                         R.fail([fn, "call", callee.split("::")[-1]], "%s invoked from an unaudited site" % callee.split("::")[-1], where=t.where(), instance="cc-event-callers:" + callee.split("::")[-1])
+
+
+@rule("C05.7", ["C05", "C15", "C06"], ["E4", "E2"], "the flight size counts every undelivered segment up to the send cursor",
+      "Segments::calc_flight_size(last_sent): the number of segments considered is (last_sent - snd_una + 1).max(0), taken from the front of the queue without skipping; a segment contributes its "
+      "payload_size exactly when it is not delivered (0 otherwise). The send budget (C05.1), the recovery exit window and the congestion controller all subtract / compare this number; "
+      "Segments::first_seq_nr is None for an empty queue and Some(snd_una) otherwise.")
+def c05_7(R):
+    F = R.facts
+    b = R.body("stream_tx_segments::Segments::calc_flight_size")
+    bodies = [b] + F.closures_of(b.name)
+    # (a) the count
+    okc = False
+    for t in b.calls():
+        if call_matches(t, ("Sub::sub",)) and len(t.args) == 2:
+            a0, a1 = trace(b, t.args[0]), trace(b, t.args[1])
+            if a0.kind == "param" and a0.root[1] == 2 and a1.last_field == "Segments.snd_una":
+                # + 1, then max(.., 0)
+                plus = [s for s in b.stmts() if s.rv.kind == "bin" and s.rv.op in ADD_OPS and any(o.kind == "const" and o.scalar == 1 for o in s.rv.ops) and any((lambda x: x.kind == "call" and x.root[1] is t)(trace(b, o)) for o in s.rv.ops if o.place is not None)]
+                mx = [c for c in b.calls() if call_matches(c, ("Ord::max",)) and any(o.kind == "const" and o.scalar == 0 for o in c.args)]
+                okc = bool(plus) and bool(mx)
+    if okc:
+        R.ok("flight-count", b.name, "(last_sent - snd_una + 1).max(0)")
+    else:
+        R.fail([b.name, "count-shape"], "calc_flight_size no longer considers (last_sent - snd_una + 1).max(0) segments: the newest sent segment is left out (or unsent ones are counted)", where=b.where(), instance="flight-count")
+    takes = [c for c in b.calls() if call_matches(c, ("Iterator::take",))]
+    skips = [c for c in b.calls() if call_matches(c, ("Iterator::skip", "Iterator::rev", "Iterator::step_by", "Iterator::skip_while"))]
+    src_ok = any(call_on_field(b, c, ("VecDeque::iter", "VecDeque::iter_mut", "VecDeque::range"), "Segments.segments") for c in b.calls())
+    if takes and not skips and src_ok:
+        R.ok("flight-front-prefix", b.name, "segments.iter().take(count)")
+    else:
+        R.fail([b.name, "iteration-shape", "take=%d skip=%d" % (len(takes), len(skips))], "calc_flight_size no longer walks the first `count` segments of the queue", where=b.where(), instance="flight-front-prefix")
+    # (b) contributions
+    n = bad = 0
+    for bb_ in bodies:
+        for s in bb_.stmts():
+            reads = [o for o in s.rv.ops if o.place is not None and o.place.last_field == "Segment.payload_size"] if s.rv else []
+            if not reads:
+                continue
+            n += 1
+            if not any(d == "field:Segment.is_delivered=false" for c, truth, d, *_ in controlling(bb_, s.bb)):
+                bad += 1
+    if n and not bad:
+        R.ok("flight-counts-undelivered", b.name, "payload_size contributes only under !is_delivered")
+    else:
+        R.fail([b.name, "contribution", "reads=%d unguarded=%d" % (n, bad)], "calc_flight_size counts delivered (selectively acknowledged) segments, or nothing at all: the send budget is computed from a wrong amount of outstanding data", where=b.where(), instance="flight-counts-undelivered")
+    fs = R.body("stream_tx_segments::Segments::first_seq_nr")
+    cls = {}
+    for it, c in ret_assignments(fs):
+        cls[c.split("(")[0]] = it
+    some_ok = any(s.rv.kind == "agg" and s.rv.j.get("variant") == "Some" and trace(fs, s.rv.ops[0]).last_field == "Segments.snd_una" and any("is_empty=false" in d for c, truth, d, *_ in controlling(fs, s.bb)) for s in fs.stmts())
+    none_ok = "None" in cls and any("is_empty=true" in d for c, truth, d, *_ in controlling(fs, cls["None"].bb))
+    if some_ok and none_ok:
+        R.ok("first_seq_nr", fs.name, "empty => None, else Some(snd_una)")
+    else:
+        R.fail([fs.name, "shape"], "first_seq_nr is no longer `None if empty else Some(snd_una)`", where=fs.where(), instance="first_seq_nr")
